@@ -25,6 +25,14 @@ def log10(ctx, x):
     return x.log10() if is_symbolic(x) else math.log10(x)
 
 
+def lin_const(ctx, x_db):
+    """10**(x/10) of a concrete dB constant obtained through the engine (same named constant as the code's own
+    conversion), a float in replay"""
+    if ctx.mode == 'sym':
+        return (SR.lift(x_db) / 10).exp10()
+    return 10 ** (x_db / 10)
+
+
 # ------------------------------------------------------------------------------------------------------------ ROADM
 
 def h_roadm(ctx, policy, override, k, props, sym_maxloss=True):
@@ -156,6 +164,7 @@ FIBER_VARIANTS = {
     'nzdf120_lumped': dict(type_variety='NZDF', length=120.0, loss_coef=0.22,
                            lumped=[{'position': 40.0, 'loss': 0.5}, {'position': 90.0, 'loss': 1.5}]),
     'ssmf5': dict(type_variety='SSMF', length=5.0, loss_coef=0.25, lumped=[{'position': 2.0, 'loss': 2.0}]),
+    'negdisp60': dict(type_variety='SSMF', length=60.0, loss_coef=0.21, lumped=[], extra={'dispersion': -8e-6}),
 }
 
 
@@ -177,8 +186,9 @@ def h_fiber(ctx, variant, k, props, pmax=0.01, nli_method='gn_model_analytic'):
     con_out_lin = ctx.real('con_out_lin', lo=1)
     att_in, con_in, con_out = (10 * log10(ctx, x) for x in (att_in_lin, con_in_lin, con_out_lin))
     _, els = build_elements([{'uid': 'fiber', 'type': 'Fiber', 'type_variety': v['type_variety'],
-                              'params': {'length': v['length'], 'length_units': 'km', 'loss_coef': v['loss_coef'],
-                                         'att_in': 0, 'con_in': 0, 'con_out': 0, 'lumped_losses': v['lumped']}}])
+                              'params': dict({'length': v['length'], 'length_units': 'km', 'loss_coef': v['loss_coef'],
+                                              'att_in': 0, 'con_in': 0, 'con_out': 0, 'lumped_losses': v['lumped']},
+                                             **v.get('extra', {}))}])
     fiber = els['fiber']
     fiber.params.att_in, fiber.params.con_in, fiber.params.con_out = att_in, con_in, con_out
     fiber.ref_pch_in_dbm = 0.0
@@ -234,7 +244,7 @@ def h_edfa(ctx, variety, k, props, sym_pmax=False, oob=False, sym_invoa=False, e
         pmax_mw = ctx.real('pmax_mw', lo=1, hi=1000)
         amp.params.p_max = 10 * log10(ctx, pmax_mw)
     else:
-        pmax_mw = 10 ** (amp.params.p_max / 10)
+        pmax_mw = lin_const(ctx, amp.params.p_max)
     freqs = FREQS[:k]
     labels = [f'ch{i}' for i in range(k)]
     if oob:
@@ -257,8 +267,14 @@ def h_edfa(ctx, variety, k, props, sym_pmax=False, oob=False, sym_invoa=False, e
         ctx.prove('edfa:effective_gain=min(set,pmax-pin)', approx(10 ** (amp.effective_gain / 10), g_eff, 1e-11))
         ctx.prove('edfa:signal_output_within_pmax', le(10 ** (amp.effective_gain / 10) * pin_tot * 1e3, pmax_mw * (1 + 1e-11)))
         ctx.prove('edfa:gain_not_raised', le(10 ** (amp.effective_gain / 10), g_lin * (1 + 1e-11)))
+    ripple = list(amp.interpol_gain_ripple)
+    flat = max(ripple) == min(ripple)
     for j, i in enumerate(idx):
         nf_lin = 10 ** (amp.nf[j] / 10)
+        if not flat:
+            # models with gain ripple: per-channel gain is the reported profile (normalisation of the profile to the
+            # set-point under ripple/tilt is an approximation and outside the claim)
+            g_eff = 10 ** (amp.gprofile[j] / 10)
         ase = H_PLANCK * pre['f'][i] * pre['baud'][i] * nf_lin
         pin = pre['p'][i] / invoa_lin
         if 'C04' in props:
@@ -323,3 +339,46 @@ def h_trx(ctx, k, n_added, props, repeat=1):
             ctx.prove(f'trx:update:gsnr_bw[{i}]', approx(1 / L(trx.snr[i]), (a + n) / s + inv_added * bauds[i] / 12.5e9, 1e-10))
             ctx.prove(f'trx:update:consistent_01nm[{i}]', approx(L(trx.snr_01nm[i]) * 12.5e9, L(trx.snr[i]) * bauds[i], 1e-10))
             ctx.prove(f'trx:update:raw_kept[{i}]', approx(L(trx.raw_snr[i]) * (a + n), s, 1e-11))
+
+
+# ------------------------------------------------------------------------------------------------------- RamanFiber
+
+def h_raman_fiber(ctx, pumps, k, props):
+    """real RamanFiber.propagate with the Raman solver on: channel powers concrete (the Raman ODE solve runs in floats),
+    signal/ASE/NLI split symbolic.  pumps: 'above' (all pumps above the comb) | 'inside' (one pump below some channels)"""
+    from symx import npshim
+    from gnpy.core.info import SpectralInformation
+    npshim.object_constructors(False)
+    set_sim_params('gn_model_analytic', raman=True)
+    freqs = [193.0e12 + i * 2.0e12 for i in range(k)]            # wide comb
+    pump_list = [{'power': 0.2, 'frequency': 205.0e12, 'propagation_direction': 'counterprop'}]
+    if pumps == 'inside':
+        pump_list.append({'power': 0.15, 'frequency': freqs[0] + 1.0e12, 'propagation_direction': 'counterprop'})
+    else:
+        pump_list.append({'power': 0.15, 'frequency': 201.0e12 + 2.0e12 * k, 'propagation_direction': 'counterprop'})
+    _, els = build_elements([{'uid': 'rf', 'type': 'RamanFiber', 'type_variety': 'SSMF',
+                              'operational': {'temperature': 283, 'raman_pumps': pump_list},
+                              'params': {'length': 80.0, 'loss_coef': 0.2, 'length_units': 'km', 'att_in': 0,
+                                         'con_in': 0.5, 'con_out': 0.5}}])
+    rf = els['rf']
+    p = [1e-3 * (1 + 0.1 * i) for i in range(k)]
+    s, a, n = [], [], []
+    for i in range(k):
+        si_ = ctx.real(f's{i}', lo=0, lo_strict=True, hi=1)
+        ai_ = ctx.real(f'a{i}', lo=0, hi=1)
+        ni_ = 1 - si_ - ai_
+        ctx.assume(ge(ni_, 0))
+        s.append(si_), a.append(ai_), n.append(ni_)
+    z = np.zeros(k)
+    si = SpectralInformation(frequency=np.array(freqs), baud_rate=np.full(k, 32e9), slot_width=np.full(k, 50e9),
+                             pch=np.array(p), signal_ratio=arr(s), ase_ratio=arr(a), nli_ratio=arr(n),
+                             roll_off=np.full(k, 0.15), chromatic_dispersion=z.copy(), pmd=z.copy(), pdl=z.copy(),
+                             latency=z.copy(), delta_pdb_per_channel=z.copy(), tx_osnr=np.full(k, 40.0),
+                             tx_power=np.full(k, 1e-3), label=np.array([f'ch{i}' for i in range(k)], dtype=object))
+    pre = snap(si)
+    rf.propagate(si)
+    set_sim_params('gn_model_analytic', raman=False)
+    if 'C01' in props:
+        c01_obligations(ctx, si, 'ramanfiber')
+    if 'C02' in props:
+        c02_obligations(ctx, pre, si, 'ramanfiber', 'raman')
